@@ -198,25 +198,104 @@ class Encoder(object):
         return res
 
     def _atom(self, base, expo):
-        """z3 expression equal to base**expo for atomic base > 0."""
+        """z3 expression equal to base**expo for atomic base > 0.
+
+        Exponents over one base form a vector space over Q spanned by representative
+        exponents (each with its own positive variable) and the constant 1.  A new exponent
+        that the solver proves to be a rational combination  sum q_i e_i + d  of the
+        representatives is expressed through their variables; otherwise it becomes a new
+        representative."""
         groups = self.atom_groups.setdefault(base, [])
         self.tr(expo)
-        for rep_e, rep_v in groups:
-            rel = self._relate(expo, rep_e)
-            if rel is not None:
-                q, d = rel
-                out = rep_v
-                if q != 1:
-                    out = self._rational_power_of_z3(rep_v, ('atom', base, rep_e), q)
-                if d != 0:
-                    out = out * self._const_rational_power(base, d)
-                return out
         if expo.op == 'const':
             return self._const_rational_power(base, expo.args[0])
+        rel = self._relate_lin(expo, [g[0] for g in groups])
+        if rel is not None:
+            qs, d = rel
+            out = None
+            for (rep_e, rep_v), q in zip(groups, qs):
+                if q == 0:
+                    continue
+                f = self._rational_power_of_z3(rep_v, ('atom', base, rep_e), q)
+                out = f if out is None else out * f
+            if d != 0:
+                f = self._const_rational_power(base, d)
+                out = f if out is None else out * f
+            if out is None:
+                out = z3.RealVal(1)
+            return out
         v = self.aux('pw')
         self.axioms.append(v > 0)
         groups.append((expo, v))
         return v
+
+    def _relate_lin(self, e, reps):
+        """rationals (q_1..q_m, d) with  e == sum q_i reps_i + d  for all values (proved by
+        z3), or None."""
+        for i, r in enumerate(reps):
+            if e is r:
+                return ([Fraction(int(j == i)) for j in range(len(reps))], Fraction(0))
+        names = T.free_vars([e] + list(reps))
+        if not names:
+            return None
+        import numpy as _np
+        m = len(reps)
+        rows = []
+        rhs = []
+        tries = 0
+        while len(rows) < m + 4 and tries < 60:
+            tries += 1
+            env = {nm: self._rng.uniform(1.1, 2.9) for nm in names}
+            if 'PI' in env:
+                env['PI'] = 3.141592653589793
+            if 'EULER' in env:
+                env['EULER'] = 2.718281828459045
+            try:
+                a = T.evalf(e, env)
+                bs = [T.evalf(r, env) for r in reps]
+            except Exception:
+                continue
+            if abs(a) > 1e6 or any(abs(b) > 1e6 for b in bs):
+                continue
+            rows.append(bs + [1.0])
+            rhs.append(a)
+        if len(rows) < m + 4:
+            return None
+        A = _np.array(rows)
+        y = _np.array(rhs)
+        sol, res, rank, sv = _np.linalg.lstsq(A, y, rcond=None)
+        if rank < m + 1:
+            return None
+        if _np.max(_np.abs(A.dot(sol) - y)) > 1e-8 * (1 + _np.max(_np.abs(y))):
+            return None
+        fr = [Fraction(float(c)).limit_denominator(24) for c in sol]
+        if any(abs(float(f) - c) > 1e-7 for f, c in zip(fr, sol)):
+            return None
+        if any(abs(f.numerator) > 48 for f in fr):
+            return None
+        qs, d = fr[:-1], fr[-1]
+        # prove it
+        t0 = time.time()
+        comb = T.const(d)
+        for q, r in zip(qs, reps):
+            if q != 0:
+                comb = T.add(comb, T.mul(T.const(q), r))
+        claim = T.eq(e, comb)
+        s = z3.Solver()
+        s.set('timeout', 5000)
+        zc = self.tr(claim)
+        for dt in self.domain_terms:
+            s.add(self.tr(dt))
+        s.add(self.defined(claim))
+        for ax in self.axioms:
+            s.add(ax)
+        s.add(z3.Not(zc))
+        r = s.check()
+        self.stats['exp_relation_queries'] += 1
+        self.stats['exp_relation_time'] += time.time() - t0
+        if str(r) == 'unsat':
+            return (qs, d)
+        return None
 
     def _const_rational_power(self, base, d):
         p, q = d.numerator, d.denominator
@@ -415,6 +494,13 @@ def split_factors(b):
         if t.op == 'const':
             if e.op == 'const' and e.args[0].denominator == 1 and t.args[0] != 0:
                 coeff *= t.args[0] ** int(e.args[0])
+            elif t.args[0] > 0:
+                for prime, mult in _small_factorisation(t.args[0]):
+                    key = T.const(prime)
+                    if key not in acc:
+                        acc[key] = T.ZERO
+                        order.append(key)
+                    acc[key] = T.add(acc[key], T.mul(T.const(mult), e))
             else:
                 key = t
                 if key not in acc:
